@@ -186,11 +186,11 @@ fn parse_section(
                     // If the section is a host section, parse it as such
                     let host_name = {
                         let raw = section_name.splitn(2, ' ').last().unwrap().trim();
-                        if raw.starts_with('\"') && raw.ends_with('\"') {
-                            raw[1..raw.len() - 1].to_string()
-                        } else {
-                            raw.to_string()
-                        }
+                        // Remove the quotation marks if the name is enclosed in them
+                        raw.strip_prefix('\"')
+                            .and_then(|unquoted| unquoted.strip_suffix('\"'))
+                            .unwrap_or(raw)
+                            .to_string()
                     };
 
                     let section = parse_section(&host_name, lines, filename)?;
